@@ -114,6 +114,7 @@ theorem missedMom_r2 (T : Nat) (rows : List (Row α)) : vsum (missedMom rows).r2
     refine (h Mom.zero).trans ?_
     have z : vsum (Mom.zero : Mom α).r2 T = 0 := vsum_const_zero T
     rw [z, zero_add]
+    rfl
   induction rows with
   | nil => intro m; simp
   | cons row rows ih =>
@@ -203,5 +204,117 @@ theorem affine_scalar_optimal (x0 x1 x2 r1 rx r2 w' b' : α) (hD : 0 < x2 * x0 -
     rw [← e] at hr
     exact nonneg_of_mul_nonneg_right hr hx0
   linarith
+
+end NanoVerif.WLearner
+
+namespace NanoVerif.WLearner
+variable {α : Type} [Field α] [LinearOrder α] [IsStrictOrderedRing α]
+
+theorem affineCand_rss [Log α] (eps1 : α) (T : Nat) (K : α) (crit : Crit) (f : Nat) (rows : List (Row α)) :
+    (affineCand eps1 T K crit f rows).rss =
+      affineRss T (fullMom (present rows)) (affineW eps1 (fullMom (present rows))) (affineB eps1 (fullMom (present rows)))
+        + missSum T rows := by
+  simp only [affineCand]
+  rw [missedMom_r2]; rfl
+
+/-- `fit_predict_reproduces_rss` for the affine learner (both branches of `constant()`): the value handed to `make_score`
+    is the RSS of the stored coefficients' predictions -/
+theorem affineCand_rss_eq [Log α] (eps1 : α) (T : Nat) (K : α) (crit : Crit) (f : Nat) (rows : List (Row α)) :
+    (affineCand eps1 T K crit f rows).rss =
+      rssOf T rows (affinePred (tab (affineCand eps1 T K crit f rows).tables 0)
+                               (tab (affineCand eps1 T K crit f rows).tables 1)) := by
+  rw [affineCand_rss, rssOf_affine]
+  rfl
+
+/-- regular branch: no affine map of the feature has a smaller RSS -/
+theorem affineCand_optimal_regular [Log α] {eps1 : α} (heps : 0 ≤ eps1) (T : Nat) (K : α) (crit : Crit) (f : Nat)
+    (rows : List (Row α)) (hreg : affineConst eps1 (fullMom (present rows)) = false) (w' b' : Vec α) :
+    (affineCand eps1 T K crit f rows).rss ≤ rssOf T rows (affinePred w' b') := by
+  obtain ⟨hD, hx0⟩ := affineConst_false heps (present rows) hreg
+  rw [affineCand_rss, rssOf_affine]
+  have : affineRss T (fullMom (present rows)) (affineW eps1 (fullMom (present rows)))
+      (affineB eps1 (fullMom (present rows))) ≤ affineRss T (fullMom (present rows)) w' b' := by
+    unfold affineRss
+    apply vsum_le; intro o _
+    simp only [affineW, affineB, hreg, Bool.false_eq_true, if_false]
+    have := affine_scalar_optimal (fullMom (present rows)).x0 (fullMom (present rows)).x1 (fullMom (present rows)).x2
+      ((fullMom (present rows)).r1 o) ((fullMom (present rows)).rx o) ((fullMom (present rows)).r2 o) (w' o) (b' o) hD hx0
+    simp only [two, one_add_one_eq_two, affineDen]
+    exact this
+  linarith
+
+theorem fullMom_const (items : List (Item α)) (c : α) (h : ∀ it ∈ items, it.v = c) :
+    (fullMom items).x1 = c * countOf items ∧ (fullMom items).x2 = c * c * countOf items := by
+  rw [fullMom_x1, fullMom_x2]
+  induction items with
+  | nil => simp [countOf_nil]
+  | cons it items ih =>
+    obtain ⟨h1, h2⟩ := ih (fun x hx => h x (by simp [hx]))
+    have hv := h it (by simp)
+    simp only [List.map_cons, lsum_cons, countOf_cons, h1, h2, hv]
+    constructor <;> ring
+
+theorem cmax_one_count {β : Type} (l : List β) (h : l ≠ []) : cmax (1 : α) (countOf l) = countOf l := by
+  rw [cmax_eq_max]
+  apply max_eq_right
+  cases l with
+  | nil => exact absurd rfl h
+  | cons x xs => rw [countOf_cons]; have := countOf_nonneg (α := α) xs; linarith
+
+/-- degenerate branch: on a feature that is constant over the fitted samples `constant()` holds, the constant fit is
+    returned, and it is optimal in the affine class (every affine map of a constant feature is a constant) -/
+theorem affineCand_optimal_constant [Log α] {eps1 : α} (heps : 0 ≤ eps1) (T : Nat) (K : α) (crit : Crit) (f : Nat)
+    (rows : List (Row α)) (c : α) (hconst : ∀ it ∈ present rows, it.v = c) (w' b' : Vec α) :
+    affineConst eps1 (fullMom (present rows)) = true ∧
+    (affineCand eps1 T K crit f rows).rss ≤ rssOf T rows (affinePred w' b') := by
+  obtain ⟨h1, h2⟩ := fullMom_const (present rows) c hconst
+  have hc : affineConst eps1 (fullMom (present rows)) = true := by
+    unfold affineConst
+    simp only [Bool.not_eq_true', decide_eq_false_iff_not, not_lt]
+    rw [h1, h2, fullMom_x0]
+    have : 0 ≤ eps1 * (c * c * countOf (present rows) * countOf (present rows)) :=
+      mul_nonneg heps (mul_nonneg (mul_nonneg (mul_self_nonneg c) (countOf_nonneg _)) (countOf_nonneg _))
+    have e : c * c * countOf (present rows) * countOf (present rows)
+        - c * countOf (present rows) * (c * countOf (present rows)) = (0 : α) := by ring
+    rw [e]; exact this
+  refine ⟨hc, ?_⟩
+  rw [affineCand_rss_eq]
+  rw [rssOf_split T rows (affinePred w' b') (fun x => fun o => w' o * x + b' o) rfl (fun x => rfl)]
+  rw [rssOf_split T rows (affinePred _ _) (fun x => fun o => tab (affineCand eps1 T K crit f rows).tables 0 o * x
+      + tab (affineCand eps1 T K crit f rows).tables 1 o) rfl (fun x => rfl)]
+  -- both predictors are constant on the present values
+  have e1 : (present rows).map (fun it => sqErr T it.r (fun o => w' o * it.v + b' o))
+      = ((present rows).map (·.r)).map (fun r => sqErr T r (fun o => w' o * c + b' o)) := by
+    rw [List.map_map]; apply List.map_congr_left; intro it hit
+    simp only [Function.comp]; rw [hconst it hit]
+  have htab0 : ∀ o, tab (affineCand eps1 T K crit f rows).tables 0 o = 0 := by
+    intro o
+    simp only [affineCand, tab, List.getD_cons_zero, affineW]
+    have : affineConst eps1 (List.foldl Item.upd Mom.zero (present rows)) = true := hc
+    rw [this]; rfl
+  have htab1 : ∀ o, tab (affineCand eps1 T K crit f rows).tables 1 o = fitConstant (fullMom (present rows)) o := by
+    intro o
+    simp only [affineCand, tab, affineB]
+    have : affineConst eps1 (List.foldl Item.upd Mom.zero (present rows)) = true := hc
+    simp only [List.getD_cons_succ, List.getD_cons_zero, this, if_true]
+    rfl
+  by_cases hne : present rows = []
+  · rw [hne]; simp
+  · have hrs : (present rows).map (·.r) ≠ [] := by simpa using hne
+    have hmean : ∀ o, fitConstant (fullMom (present rows)) o = binMean (momOf ((present rows).map (·.r))) o := by
+      intro o
+      simp only [fitConstant, binMean]
+      rw [fullMom_x0, cmax_one_count _ hne, fullMom_r1, momOf_r1, momOf_x0, countOf_map, List.map_map]
+      rfl
+    have e2 : (present rows).map (fun it => sqErr T it.r (fun o => tab (affineCand eps1 T K crit f rows).tables 0 o * it.v
+        + tab (affineCand eps1 T K crit f rows).tables 1 o))
+        = ((present rows).map (·.r)).map (fun r => sqErr T r (binMean (momOf ((present rows).map (·.r))))) := by
+      rw [List.map_map]; apply List.map_congr_left; intro it _
+      simp only [Function.comp]
+      apply sqErr_congr; intro o
+      rw [htab0, htab1, hmean]; ring
+    rw [e1, e2, ← (const_fit_vec T _ hrs zeroV).2]
+    have := (const_fit_vec T _ hrs (fun o => w' o * c + b' o)).1
+    linarith
 
 end NanoVerif.WLearner
